@@ -9,7 +9,8 @@
        oracle [declared] (smtlib.is_declared_symbol) does not know, and each name is used in a replacement value;
    (c) EliminateVariable: occurs check, the eliminated key is a leaf that is not a constant, the replaced
        positions are exactly its non-defining occurrences;
-   (d) an evaluated example per mutator, and the inputs that show that the hypotheses of (a) are needed. *)
+   (d) an evaluated example per mutator; a string literal / a comment in the place of the name (nothing is
+       proposed), and the inputs that show that the hypothesis "the node is well formed" of (a) is needed. *)
 From DD Require Import Spec.StdReader Model.Rewrites Model.GlobalRw.
 From DD Require Import Proofs.More4.Base Proofs.More4.Wf Proofs.More4.Fresh Proofs.More4.Elim Proofs.More4.Examples.
 Local Open Scope list_scope.
@@ -43,7 +44,7 @@ Print Assumptions rw_fresh_var_wf.
 Theorem rw_bv_reduce_bw_wf : forall gs bw declared here e l g,
   wf e = true ->
   (forall x so, gs x = Some so -> wf so = true) ->
-  (forall s, nth_child e 1 = Some (L s) -> atom_ok s = true) ->      (* the declared name is a simple symbol *)
+  (forall s, nth_child e 1 = Some (L s) -> atom_ok s = true) ->      (* the declared name is a simple symbol (not needed, see below) *)
   rw_bv_reduce_bw gs bw declared here e = Some l -> In g l -> gsimp_wf g.
 Proof. exact rw_bv_reduce_bw_closed. Qed.
 Print Assumptions rw_bv_reduce_bw_wf.
@@ -56,7 +57,7 @@ Print Assumptions rw_bv_merge_bw_wf.
 
 Theorem rw_str_contains_wf : forall declared e l g,
   wf e = true ->
-  (forall s, nth_child e 1 = Some (L s) -> atom_ok s = true) ->      (* the first operand, if a leaf, is a simple symbol *)
+  (forall s, nth_child e 1 = Some (L s) -> atom_ok s = true) ->      (* the first operand, if a leaf, is a simple symbol (not needed, see below) *)
   rw_str_contains declared e = Some l -> In g l -> gsimp_wf g.
 Proof. exact rw_str_contains_closed. Qed.
 Print Assumptions rw_str_contains_wf.
@@ -76,24 +77,77 @@ Theorem rw_remove_datatype_wf : forall here e l g,
 Proof. exact rw_remove_datatype_closed. Qed.
 Print Assumptions rw_remove_datatype_wf.
 
-(* the two hypotheses on the name are needed: a string literal as the declared name, a comment as the operand *)
-Theorem reduce_bw_string_name_not_wf :
-  wf (T [lf "declare-const"; L q_x; bv "8"]) = true /\
-  match rw_bv_reduce_bw (one_sort (L q_x) (bv "8")) (fun _ => Some 8%Z) (names []) [0]%nat (T [lf "declare-const"; L q_x; bv "8"]) with
-  | Some (GS _ _ [d] :: _) => d = T [lf "declare-const"; L (95%N :: q_x); bv "1"] /\ wf d = false
-  | _ => False
-  end.
-Proof. exact ex_reduce_bw_string_name. Qed.
-Print Assumptions reduce_bw_string_name_not_wf.
+(* Since the mutators skip a string literal or a comment in the place of the name (BVReduceBW: the declared name
+   starts with a double quote or a semicolon; StringContainsToConcat: the operand starts with a semicolon; quoted
+   symbols and, for str.contains, constants were skipped before), the hypothesis on the name follows from the
+   well-formedness of the node: a well-formed leaf that passes the guards is an atom.  The two theorems above hold
+   without it. *)
+Theorem rw_bv_reduce_bw_wf_strong : forall gs bw declared here e l g,
+  wf e = true ->
+  (forall x so, gs x = Some so -> wf so = true) ->
+  rw_bv_reduce_bw gs bw declared here e = Some l -> In g l -> gsimp_wf g.
+Proof. exact rw_bv_reduce_bw_closed_wf. Qed.
+Print Assumptions rw_bv_reduce_bw_wf_strong.
 
-Theorem str_contains_comment_not_wf :
+Theorem rw_str_contains_wf_strong : forall declared e l g,
+  wf e = true -> rw_str_contains declared e = Some l -> In g l -> gsimp_wf g.
+Proof. exact rw_str_contains_closed_wf. Qed.
+Print Assumptions rw_str_contains_wf_strong.
+
+(* ... because a proposal is made only for an atom *)
+Theorem rw_bv_reduce_bw_name_is_atom : forall gs bw declared here e l g,
+  wf e = true -> rw_bv_reduce_bw gs bw declared here e = Some l -> In g l ->
+  forall s, nth_child e 1 = Some (L s) -> atom_ok s = true.
+Proof. exact rw_bv_reduce_bw_name_atom. Qed.
+Print Assumptions rw_bv_reduce_bw_name_is_atom.
+
+Theorem rw_str_contains_operand_is_atom : forall declared e l g,
+  wf e = true -> rw_str_contains declared e = Some l -> In g l ->
+  forall s, nth_child e 1 = Some (L s) -> atom_ok s = true.
+Proof. exact rw_str_contains_operand_atom. Qed.
+Print Assumptions rw_str_contains_operand_is_atom.
+
+(* the former counterexamples (a string literal as the declared name, a comment as the declared name / as the
+   operand): nothing is proposed any more *)
+Theorem reduce_bw_string_name_nothing :
+  wf (T [lf "declare-const"; L q_x; bv "8"]) = true /\
+  rw_bv_reduce_bw (one_sort (L q_x) (bv "8")) (fun _ => Some 8%Z) (names []) [0]%nat (T [lf "declare-const"; L q_x; bv "8"])
+  = Some [].
+Proof. exact ex_reduce_bw_string_name. Qed.
+Print Assumptions reduce_bw_string_name_nothing.
+
+Theorem reduce_bw_comment_name_nothing :
+  wf (T [lf "declare-const"; L cmt; bv "8"]) = true /\
+  rw_bv_reduce_bw (one_sort (L cmt) (bv "8")) (fun _ => Some 8%Z) (names []) [0]%nat (T [lf "declare-const"; L cmt; bv "8"])
+  = Some [].
+Proof. exact ex_reduce_bw_comment_name. Qed.
+Print Assumptions reduce_bw_comment_name_nothing.
+
+Theorem str_contains_comment_nothing :
   wf (T [lf "str.contains"; L cmt; lf "t"]) = true /\
-  match rw_str_contains (names []) (T [lf "str.contains"; L cmt; lf "t"]) with
-  | Some [GS _ _ [d1; d2]] => d1 = T [lf "declare-const"; L (cmt ++ lit "_prefix"); lf "String"] /\ wf d1 = false /\ wf d2 = false
+  rw_str_contains (names []) (T [lf "str.contains"; L cmt; lf "t"]) = Some [].
+Proof. exact ex_str_contains_comment. Qed.
+Print Assumptions str_contains_comment_nothing.
+
+(* the hypothesis "the node is well formed" is needed: a leaf that is no token (|x, an unterminated quoted symbol)
+   passes all guards and gives declarations that are not well formed *)
+Theorem reduce_bw_not_wf_node :
+  wf (T [lf "declare-const"; L bar_x; bv "8"]) = false /\
+  match rw_bv_reduce_bw (one_sort (L bar_x) (bv "8")) (fun _ => Some 8%Z) (names []) [0]%nat (T [lf "declare-const"; L bar_x; bv "8"]) with
+  | Some (GS _ _ [d] :: _) => d = T [lf "declare-const"; L (95%N :: bar_x); bv "1"] /\ wf d = false
   | _ => False
   end.
-Proof. exact ex_str_contains_comment. Qed.
-Print Assumptions str_contains_comment_not_wf.
+Proof. exact ex_reduce_bw_not_wf_node. Qed.
+Print Assumptions reduce_bw_not_wf_node.
+
+Theorem str_contains_not_wf_node :
+  wf (T [lf "str.contains"; L bar_x; lf "t"]) = false /\
+  match rw_str_contains (names []) (T [lf "str.contains"; L bar_x; lf "t"]) with
+  | Some [GS _ _ [d1; d2]] => d1 = T [lf "declare-const"; L (bar_x ++ lit "_prefix"); lf "String"] /\ wf d1 = false /\ wf d2 = false
+  | _ => False
+  end.
+Proof. exact ex_str_contains_not_wf_node. Qed.
+Print Assumptions str_contains_not_wf_node.
 
 (* ================= (b) freshness ================= *)
 Theorem rw_fresh_var_freshness : forall gs vars isdef declared id here e l g,
@@ -162,6 +216,28 @@ Theorem rw_str_contains_shape : forall declared e l g,
            [mk_decl (v ++ lit "_prefix") (lf "String"); mk_decl (v ++ lit "_suffix") (lf "String")].
 Proof. exact rw_str_contains_inv. Qed.
 Print Assumptions rw_str_contains_shape.
+
+(* ... with the guards on a leading double quote / semicolon of the leaf the names are derived from *)
+Theorem rw_bv_reduce_bw_shape_guard : forall gs bw declared here e l g,
+  rw_bv_reduce_bw gs bw declared here e = Some l -> In g l ->
+  exists h s rest so w b,
+    e = T (h :: L s :: rest) /\ gs (L s) = Some so /\ declared (95%N :: s) = false /\ is_piped s = false /\
+    match s with c :: _ => N.eqb c cDQ || N.eqb c cSEMI | [] => false end = false /\
+    g = GS [(here, Some (T [lf "define-fun"; L s; T []; so; T [idx_head "zero_extend" [(w - b)%Z]; L (95%N :: s)]]))] []
+           [mk_decl (95%N :: s) (bv_sort_of b)].
+Proof. exact rw_bv_reduce_bw_inv_guard. Qed.
+Print Assumptions rw_bv_reduce_bw_shape_guard.
+
+Theorem rw_str_contains_shape_guard : forall declared e l g,
+  rw_str_contains declared e = Some l -> In g l ->
+  exists h v x,
+    e = T [h; L v; x] /\ declared (v ++ lit "_prefix") = false /\ declared (v ++ lit "_suffix") = false /\
+    is_const_leaf v = false /\ is_piped v = false /\
+    match v with c :: _ => N.eqb c cSEMI | [] => false end = false /\
+    g = GS [] [(e, Some (T [lf "="; L v; T [lf "str.++"; L (v ++ lit "_prefix"); x; L (v ++ lit "_suffix")]]))]
+           [mk_decl (v ++ lit "_prefix") (lf "String"); mk_decl (v ++ lit "_suffix") (lf "String")].
+Proof. exact rw_str_contains_inv_guard. Qed.
+Print Assumptions rw_str_contains_shape_guard.
 
 (* ================= (c) EliminateVariable ================= *)
 Theorem occurrences_are_positions : forall t input p, In p (occs_input t input) <-> get_in input p = Some t.
